@@ -695,17 +695,19 @@ def format_duration(t: float, pluralize=False) -> str:
 
     """
 
-    # First decide the base units
-    if t >= 1.0:
+    # First decide the base units. The comparison has a small tolerance so that e.g. 1/52 entered or
+    # stored with 15-16 significant figures (as in a spreadsheet) is still recognized as a week
+    tol = 1 - 1e-9
+    if t >= 1.0 * tol:
         base_scale = 1
         timescale = "year"
-    elif t >= 1 / 12:
+    elif t >= 1 / 12 * tol:
         base_scale = 1 / 12
         timescale = "month"
-    elif t >= 1 / 26:
+    elif t >= 1 / 26 * tol:
         base_scale = 1 / 26
         timescale = "fortnight"
-    elif t >= 1 / 52:
+    elif t >= 1 / 52 * tol:
         base_scale = 1 / 52
         timescale = "week"
     else:
